@@ -48,8 +48,8 @@ CHECKS = {
    text='TLA+ writer/reader tie automata model-checked exhaustively (all lists up to length 10/12, all 2^n indicator vectors); every TLC behaviour replayed into create_string_pref, the reader and Solver file loading (2/3-agent, first/second side). Exhaustive for the stated n; plus three-digit entries, sampled decision vectors for lists of 25 and 60 entries, and a finite abstraction of both automata (spec/unbounded/TiesAbs.tla, 6 abstract states, all list lengths) that every concrete step is checked to refine (action properties WriterBridge/ReaderBridge).',
    tech='TLC exhaustive model checking of MC_Ties.tla + finite abstraction for all lengths + replay of all exported behaviours into the implementation'),
  'C14': dict(cat='fault_enumeration', sec='6 C14',
-   text='MC_Faults.tla enumerates, per criteria sequence (1-7 underlying solves incl. per-rank solves), every placement of every back-end failure kind, transient/persistent, all pairs, limit set/unset, duration patterns, and proves the report rule (NoMatchingUnlessAllProven, ShowsFirstBadOrTimeout) on the specification; every plan is replayed into the real code with outcomes injected at COIN_CMD.actualSolve under three leftover-value policies (and once more after a healthy solve on the same object) and a virtual clock in microseconds, over get_results/_short/_long. Unbounded: TLAPS proves (spec/unbounded/FaultProofs.tla over MPSolverAbs.tla, 32 obligations) that whatever is presented in full was proven optimal for every instance, criteria list and plan; TLC checks that the real actions refine the abstract ones.',
-   tech='TLC enumeration of fault plans (MC_Faults.tla) + fault injection at the pulp boundary with a virtual clock + TLAPS proof of the presentation invariant'),
+   text='MC_Faults.tla enumerates, per criteria sequence (1-7 underlying solves incl. per-rank solves), every placement of every back-end failure kind, transient/persistent, all pairs, limit set/unset, duration patterns, and proves the report rule (NoMatchingUnlessAllProven, ShowsFirstBadOrTimeout) on the specification; every plan is replayed into the real code with outcomes injected at COIN_CMD.actualSolve under three leftover-value policies (and once more after a healthy solve on the same object) and a virtual clock in microseconds, over get_results/_short/_long. MC_Runs.tla extends the enumeration to histories of two runs on one object (earlier run healthy / one fault / one slow solve under its own limit, then every single fault in the later run; same invariants on both runs), replayed with the getters judged after each run. Unbounded: TLAPS proves (spec/unbounded/FaultProofs.tla over MPSolverAbs.tla, 32 obligations) that whatever is presented in full was proven optimal for every instance, criteria list and plan; TLC checks that the real actions refine the abstract ones.',
+   tech='TLC enumeration of fault plans and two-run histories (MC_Faults.tla, MC_Runs.tla) + fault injection at the pulp boundary with a virtual clock + TLAPS proof of the presentation invariant'),
  'C15': dict(cat='model_checking', sec='6 C15',
    text='The parser mechanism (required/inapplicable tables, defaults, bound checks with explicit "no value") is proved to refine the declarative acceptance rule on every legal vector and every single-fault perturbation (MC_Gen.tla: ParserOK, FamilySound, RejectBeforeWrite, AcceptWritesAll); every vector is replayed into the real Generator in a fresh location: accepted -> all files, rejected -> SystemExit(2) and nothing written.',
    tech='TLC model checking of MC_Gen + replay of every argument vector into Generator'),
